@@ -184,6 +184,16 @@ def gen_width(rng):
 def targeted(rng, name):
     big = name in NON_MATERIALISING
     c = lambda **kw: gen_content(rng, big_ok=big, **kw)
+    if name == "integer_sqrt" and rng.random() < 0.6:
+        # around perfect squares of every magnitude: where a floating-point or Newton shortcut
+        # for the integer root is off by one (k^2 - 1, k^2, k^2 + 1; k from 2^20 to beyond 2^64)
+        k = rng.choice([rng.randint(2**20, 2**26), rng.randint(2**26, 2**32 - 1), rng.randint(2**26, 2**32 - 1),
+                        rng.randint(2**31, 2**32 - 1), rng.randint(2**32, 2**40), rng.randint(2**63, 2**70), 2**32 - 1, 2**32, 2**26 + 1, 94906267])
+        return I(k * k + rng.choice([-1, -1, 0, 1, -2]))
+    if name in ("integer_divide", "integer_modulo") and rng.random() < 0.3:
+        a = rng.choice([2**63, -2**63, 2**64, -(2**64) - 1, 10**30, -(10**30)]) + rng.randint(-3, 3)
+        b = rng.choice([1, -1, 2, -2, 3, -3, 2**32, -(2**32), 2**63, -(2**63), 7, -7])
+        return T(I(a), I(b))
     if name in ("binary_length", "binary_not", "binary_popcount", "binary_hash32", "binary_hash64"):
         return B(c())
     if name == "binary_new":
